@@ -60,6 +60,7 @@ def run(ctx: Ctx) -> None:
     api_parity_and_full_scan(ctx, py, rs)
     register_access_and_queue_order(ctx, py)
     press_release_name_parity(ctx, py)
+    rust_ring_coherent(ctx, rs)
 
 
 # ---------------------------------------------------------------------------
@@ -874,3 +875,40 @@ def press_release_name_parity(ctx: Ctx, py: PyProgram) -> None:
                               f"{cls.name}.press_key rewrites its key parameter as {forms['press_key'] or 'nothing'} but release_key as {forms['release_key'] or 'nothing'}: "
                               "a key pressed under a spelling only one of them normalises is never released", f"{rel}:{meths['press_key'].lineno}")
     ctx.instance("C14.4/press-release-name-parity", "classes with a press_key/release_key pair: both treat the key parameter alike", n, 2)
+
+
+def rust_ring_coherent(ctx: Ctx, rs: RustProgram) -> None:
+    """head, tail and count of the Rust event ring describe one queue (tail = head + count mod size).  A function that re-bases one of
+    them (assigns it a value not computed from its own old value) re-bases all three, and with constants the relation must hold:
+    rewinding head and count while tail stays makes new events land where head does not look - stale events are delivered, new ones lost."""
+    ring = ("self.fifo_head", "self.fifo_tail", "self.fifo_count")
+    size = rs.eval_const(KB_RS, "FIFO_SIZE")
+    rel = rs.file_for(KB_RS)
+    n = 0
+    for fn in rs.fns_in(KB_RS):
+        if fn.body is None or not fn.qual.startswith("KeyboardMatrix::"):
+            continue
+        absolute: dict[str, list] = {}
+        for a in walk(fn.body):
+            if a.get("k") == "assign" and expr_text(a["l"]) in ring:
+                lhs = expr_text(a["l"])
+                if not any(x.get("k") == "field" and expr_text(x) == lhs for x in walk(a["r"])):
+                    absolute.setdefault(lhs, []).append(a)
+        if not absolute:
+            continue
+        n += 1
+        missing = [f for f in ring if f not in absolute]
+        if missing:
+            a0 = next(iter(absolute.values()))[0]
+            ctx.violation("C14.1/ring-coherent", key_of(rel, fn.qual, f"re-bases {sorted(absolute)} but not {missing}"),
+                          f"{fn.qual} assigns {sorted(f.split('.')[-1] for f in absolute)} afresh but leaves {[m.split('.')[-1] for m in missing]} as it was: the ring's head/tail/count no longer describe one queue "
+                          "(events queued afterwards are stored where the reader does not look)", f"{rel}:{a0['ln']}")
+            continue
+        vals = {}
+        for f in ring:
+            r = absolute[f][-1]["r"]
+            if r.get("k") == "lit" and str(r.get("v", expr_text(r))).isdigit():
+                vals[f] = int(str(r.get("v", expr_text(r))))
+        if len(vals) == 3 and isinstance(size, int) and vals[ring[1]] != (vals[ring[0]] + vals[ring[2]]) % size:
+            ctx.violation("C14.1/ring-coherent", key_of(rel, fn.qual, "constants violate tail = head + count"), f"{fn.qual} sets head={vals[ring[0]]}, tail={vals[ring[1]]}, count={vals[ring[2]]}: tail != (head + count) mod {size}", f"{rel}:{absolute[ring[0]][-1]['ln']}")
+    ctx.instance("C14.1/ring-coherent", "KeyboardMatrix functions that re-base a ring index: all three re-based, constants coherent", n, 3)
